@@ -1,3 +1,4 @@
+#![allow(dead_code)]
 //! vmon — runtime monitors for saphyr (see /verif/DESIGN.md).
 
 mod corpus;
@@ -6,6 +7,10 @@ mod family;
 mod gen;
 mod inputs;
 mod mon_a;
+mod mon_b;
+mod mon_c;
+mod render;
+mod scalars;
 mod util;
 
 use util::{JParser, Rng, Stats, J};
@@ -93,19 +98,25 @@ fn run(args: &Args) {
     let mut stats = Stats::new(&args.prop);
     let mut rng = Rng::derive(args.seed, 0x77, args.shard);
     match args.prop.as_str() {
-        "C01" | "C02" | "C10" => {
+        "C01" | "C02" | "C10" | "C12" | "C14" | "C17" => {
             let b = family_budget(&args.prop, &args.tier, args.scale);
             let prop = args.prop.clone();
+            let mut c17_budget: u64 = if args.tier == "thorough" { 1500 } else { 40 };
             family::for_each_case(b, args.seed, args.shard, args.nshards, args.from, args.to, args.trace, &mut stats, &mut |s, origin, st| {
                 st.cnt(&format!("origin_{origin}"), 1);
                 match prop.as_str() {
                     "C01" => mon_a::check_c01(s, st, &mut rng),
                     "C02" => mon_a::check_c02(s, st),
                     "C10" => mon_a::check_c10(s, st),
+                    "C12" => mon_b::check_c12(s, st),
+                    "C14" => mon_b::check_c14(s, st),
+                    "C17" => mon_b::check_c17(s, st, &mut rng, &mut c17_budget),
                     _ => unreachable!(),
                 }
             });
         }
+        "C03" => mon_c::run_c03(&args.tier, args.seed, args.shard, args.nshards, args.scale, &mut stats),
+        "C06" => mon_c::run_c06(&args.tier, args.seed, args.shard, args.nshards, args.scale, &mut stats),
         p => {
             eprintln!("unknown property {p}");
             std::process::exit(2);
@@ -126,6 +137,14 @@ fn replay(path: &str) {
         "C01" => mon_a::check_c01(&input, &mut stats, &mut rng),
         "C02" => mon_a::check_c02(&input, &mut stats),
         "C10" => mon_a::check_c10(&input, &mut stats),
+        "C12" => mon_b::check_c12(&input, &mut stats),
+        "C14" => mon_b::check_c14(&input, &mut stats),
+        "C17" => {
+            let mut b = 1;
+            mon_b::check_c17(&input, &mut stats, &mut rng, &mut b)
+        }
+        "C03" => mon_c::replay_c03(&case, &mut stats),
+        "C06" => mon_c::replay_c06(&case, &mut stats),
         p => {
             eprintln!("replay: unknown property {p}");
             std::process::exit(2);
@@ -163,6 +182,18 @@ fn main() {
         "run" => run(&parse_args(&a[1..])),
         "replay" => replay(&a[1]),
         "distinct" => distinct(&a[1..]),
+        "events" => {
+            use std::io::Read;
+            let mut s = String::new();
+            if a.len() > 1 { s = a[1].clone(); } else { std::io::stdin().read_to_string(&mut s).unwrap(); }
+            let p = events::parse_str(&s);
+            for (e, sp) in &p.events {
+                println!("{}   @{}", e.line(), events::fmt_span(sp));
+            }
+            if let Some(e) = &p.error {
+                println!("ERROR: {}", e.display);
+            }
+        }
         _ => {
             eprintln!("unknown command");
             std::process::exit(2);
